@@ -151,6 +151,11 @@ func (l *listener) receiveRetry(ctx context.Context) (ndp.Message, netip.Addr, e
 		if cm.HopLimit != ndp.HopLimit {
 			l.logf("received NDP message with IPv6 hop limit %d from %s, ignoring", cm.HopLimit, host)
 			l.cctx.mm.MessagesReceivedInvalidTotal(1.0, l.iface, m.Type().String())
+
+			// An invalid message is ignored rather than a failed receive, so
+			// it must not consume the retry budget: otherwise a handful of
+			// such messages in a row would stop the listener.
+			i--
 			continue
 		}
 
